@@ -403,6 +403,9 @@ def _stochastic_columns(rng, n):
     return a / a.sum(axis=0)
 
 
+LAYOUT_CHOICE = ["c"]
+
+
 def array_parameter_programs(pq, rng):
     """(label, simulator factory, program builder) triples covering the instructions that take arrays, with every array
     given as an ndarray of the Config's own dtype (a no-copy `asarray` aliases the caller's array). The builder returns
@@ -417,9 +420,25 @@ def array_parameter_programs(pq, rng):
     idx = M.xxpp_to_xpxp(d)
     gram = M.random_gram(rng, 3)[0]
     out = []
+    layout = LAYOUT_CHOICE[0]
+
+    def _lay(arr):
+        """Memory layout of the caller's 2-D arrays: C order, Fortran order, or a transposed view of another array
+        (a LAPACK routine told to work in place overwrites only Fortran-ordered input)."""
+        if layout == "c":
+            return arr
+        res = {}
+        for k, v in arr.items():
+            if isinstance(v, np.ndarray) and v.ndim == 2 and v.shape[0] > 1:
+                if layout == "f":
+                    v = np.asfortranarray(v)
+                else:
+                    v = np.ascontiguousarray(v.T).T
+            res[k] = v
+        return res
 
     def passive_imperfect():
-        arr = {"occ": np.array([1, 1, 1]), "U": U.copy(), "loss": np.array([0.8]), "eff": _stochastic_columns(rng, 4)}
+        arr = _lay({"occ": np.array([1, 1, 1]), "U": U.copy(), "loss": np.array([0.8]), "eff": _stochastic_columns(rng, 4)})
         with pq.Program() as p:
             pq.Q() | pq.NumberState(arr["occ"])
             pq.Q(2, 0, 1) | pq.Interferometer(arr["U"])
@@ -428,7 +447,7 @@ def array_parameter_programs(pq, rng):
         return p, arr
 
     def passive_lossy_dist():
-        arr = {"T": T.copy(), "gram": gram.copy()}
+        arr = _lay({"T": T.copy(), "gram": gram.copy()})
         with pq.Program() as p:
             pq.Q() | pq.DistinguishableNumberState([1, 1, 1], particle_overlap=arr["gram"])
             pq.Q() | pq.LossyInterferometer(arr["T"])
@@ -436,7 +455,7 @@ def array_parameter_programs(pq, rng):
         return p, arr
 
     def purefock_zoo():
-        arr = {"U": U.copy(), "P": P.copy(), "A": A.copy(), "theta": rng.uniform(-1, 1, size=5), "eff": _stochastic_columns(rng, 5)}
+        arr = _lay({"U": U.copy(), "P": P.copy(), "A": A.copy(), "theta": rng.uniform(-1, 1, size=5), "eff": _stochastic_columns(rng, 5)})
         with pq.Program() as p:
             pq.Q() | pq.StateVector([1, 0, 1])
             pq.Q(1, 2, 0) | pq.Interferometer(arr["U"])
@@ -446,7 +465,7 @@ def array_parameter_programs(pq, rng):
         return p, arr
 
     def purefock_postselect():
-        arr = {"U": U.copy(), "eff": _stochastic_columns(rng, 5)}
+        arr = _lay({"U": U.copy(), "eff": _stochastic_columns(rng, 5)})
         with pq.Program() as p:
             pq.Q() | pq.StateVector([1, 1, 0])
             pq.Q() | pq.Interferometer(arr["U"])
@@ -455,7 +474,7 @@ def array_parameter_programs(pq, rng):
         return p, arr
 
     def fock_zoo():
-        arr = {"U": U.copy(), "eff": _stochastic_columns(rng, 5)}
+        arr = _lay({"U": U.copy(), "eff": _stochastic_columns(rng, 5)})
         with pq.Program() as p:
             pq.Q() | pq.DensityMatrix(ket=(1, 0, 1), bra=(1, 0, 1))
             pq.Q(1, 2, 0) | pq.Interferometer(arr["U"])
@@ -465,8 +484,8 @@ def array_parameter_programs(pq, rng):
 
     def gaussian_zoo(meas):
         def build():
-            arr = {"mean": (mean[idx] / np.sqrt(2.0)).copy(), "cov": cov[np.ix_(idx, idx)].copy(), "U": U.copy(), "P": P.copy(), "A": A.copy(),
-                   "X": np.eye(2) * 0.9, "Y": np.eye(2) * 0.19, "dc": np.array([[0.7, 0.1], [0.1, 1.6]]), "eff": _stochastic_columns(rng, 5)}
+            arr = _lay({"mean": (mean[idx] / np.sqrt(2.0)).copy(), "cov": cov[np.ix_(idx, idx)].copy(), "U": U.copy(), "P": P.copy(), "A": A.copy(),
+                   "X": np.eye(2) * 0.9, "Y": np.eye(2) * 0.19, "dc": np.array([[0.7, 0.1], [0.1, 1.6]]), "eff": _stochastic_columns(rng, 5)})
             with pq.Program() as p:
                 pq.Q() | pq.Vacuum()
                 pq.Q() | pq.Mean(arr["mean"])
@@ -487,7 +506,7 @@ def array_parameter_programs(pq, rng):
 
     def gaussian_graph():
         a = rng.normal(size=(3, 3))
-        arr = {"adj": a + a.T, "nbar": np.array([0.3, 0.1, 0.2])}
+        arr = _lay({"adj": a + a.T, "nbar": np.array([0.3, 0.1, 0.2])})
         with pq.Program() as p:
             pq.Q() | pq.Thermal(arr["nbar"])
             pq.Q() | pq.Graph(arr["adj"])
@@ -500,7 +519,7 @@ def array_parameter_programs(pq, rng):
             A_ = rng.normal(size=(3, 3)) + 1j * rng.normal(size=(3, 3))
             B_ = rng.normal(size=(3, 3)) + 1j * rng.normal(size=(3, 3))
             A_, B_ = A_ + A_.conj().T, B_ - B_.T
-            arr = {"H": np.block([[-A_.conj(), B_], [-B_.conj(), A_]]), "U": U.copy()}
+            arr = _lay({"H": np.block([[-A_.conj(), B_], [-B_.conj(), A_]]), "U": U.copy()})
             with pq.Program() as p:
                 pq.Q() | pq.StateVector([1, 0, 1])
                 if simname == "fgaussian":
@@ -531,7 +550,9 @@ def caller_arrays(ctx, pq, rng, rounds):
     from vf.monitors import fingerprint as F
 
     for r in range(rounds):
+        LAYOUT_CHOICE[0] = ["c", "f", "tview"][r % 3]
         for label, make_sim, build in array_parameter_programs(pq, rng):
+            label = "%s[%s]" % (label, LAYOUT_CHOICE[0]) if LAYOUT_CHOICE[0] != "c" else label
             for shots in (int(rng.choice([1, 7, 60])), None):
                 try:
                     prog, arrs = build()
